@@ -7,7 +7,7 @@ from typing import Dict, List, Optional, Tuple
 
 from ..framework import Check, REPO
 from ..values_common import (FAM, INT_KINDS, FLOAT_KINDS, INT_RANGE, Layouts, get_layouts, run_worker,
-                             run_worker_parallel, regen_or_report, val_json, key_coq, HEADER, zl, z,
+                             run_worker_parallel, regen_or_report, eval_cases_robust, val_json, key_coq, HEADER, zl, z,
                              f64_bits, V_int, V_bool, V_float, V_fbits, V_str, V_bytes, V_list, V_none, V_cinst)
 
 THEOREMS = [
@@ -514,11 +514,11 @@ def run(chk: Check):
             msg_cases.append(f"(({hc_coq}, {L.lay[c['cls']]['type_id']}, {mc}, {hexl(r['hdr_orig'])}, {hexl(r['orig'])}), {exp}, "
                              f"{r['msg_rt_nodata']['code']})")
             msg_idx.append(n)
-    bad, log = FAM.eval_cases(C10_CHECK, coq_cases, per_file=60) if gen_ok else ([], "")
-    mbad, mlog = FAM.eval_cases(C10_MSG_CHECK, msg_cases, per_file=40, tag="m") if gen_ok else ([], "")
+    bad, log = eval_cases_robust(C10_CHECK, coq_cases, per_file=60) if gen_ok else ([], "")
+    mbad, mlog = eval_cases_robust(C10_MSG_CHECK, msg_cases, per_file=40, tag="m") if gen_ok else ([], "")
     for b in bad[:4]:
         if b < 0:
-            chk.broken_obligation("correspondence shard failed to evaluate", log[-800:])
+            chk.broken_obligation("correspondence shard failed to evaluate", log[:1500])
         else:
             c, r = cases[coq_idx[b]], results[coq_idx[b]]
             chk.broken_obligation("correspondence Model/Codec.v vs codecs differs",
@@ -526,7 +526,7 @@ def run(chk: Check):
                                   f"orig={r['orig'][:120]} dict={r['dict_rt']} json={r['json_rt']}")
     for b in mbad[:4]:
         if b < 0:
-            chk.broken_obligation("correspondence shard failed to evaluate", mlog[-800:])
+            chk.broken_obligation("correspondence shard failed to evaluate", mlog[:1500])
         else:
             c, r = cases[msg_idx[b]], results[msg_idx[b]]
             chk.broken_obligation("correspondence Model/Codec.v (Message.from_json) vs implementation differs",
